@@ -57,7 +57,8 @@ Definition rp_relay (resp : response) : response :=
 
 (* ---------- induced failure modes ---------- *)
 Inductive mode := Normal | Refused | ResetBeforeHead | ClosedBeforeHead | HeaderTimeout | ClientCanceled | TruncatedBody
-  | HeadCut | ResetAfterHead.
+  | HeadCut | ResetAfterHead
+  | RequestDeadline.   (* the inbound request's own context deadline expires while the backend stalls; the client stays *)
 
 (* the error Transport.RoundTrip returns, as the handler's tests see it (None: a response head was received) *)
 Definition round_trip_error (m : mode) : option err :=
@@ -67,6 +68,7 @@ Definition round_trip_error (m : mode) : option err :=
       Some {| is_net_error := true; net_timeout := false; wraps_eof := false; wraps_canceled := false |}
   | ClosedBeforeHead =>                   (* io.EOF (RoundTrip unwraps its transportReadFromServerError) *)
       Some {| is_net_error := false; net_timeout := false; wraps_eof := true; wraps_canceled := false |}
+  | RequestDeadline                       (* context.DeadlineExceeded: a net.Error whose Timeout() is true *)
   | HeaderTimeout =>                      (* "net/http: timeout awaiting response headers", a net.Error with Timeout() *)
       Some {| is_net_error := true; net_timeout := true; wraps_eof := false; wraps_canceled := false |}
   | ClientCanceled =>                     (* context.Canceled *)
@@ -90,19 +92,20 @@ Definition client_status (m : mode) (s : Z) : Z :=
 Definition event_code (e : event) : Z := match e with Connected => 1 | Disconnected => 2 end.
 
 (* ---------- integer encoding used by the correspondence harness ----------
-   [0 id isNet timeout eof canceled] -> [status]
+   [0 id isNet timeout eof canceled ctx] -> [status]
+   [2 n len] -> [number of the n concurrently relayed bodies of len bytes that arrive intact]
    [1 mode status bodyLen framing pieces] ->
       [hasErr isNet timeout eof canceled  proxyStatus clientStatus bodyIntact abortPanic  ncb cb*] *)
 Definition decode_mode (z : Z) : mode :=
   if z =? 0 then Normal else if z =? 1 then Refused else if z =? 2 then ResetBeforeHead
   else if z =? 3 then ClosedBeforeHead else if z =? 4 then HeaderTimeout else if z =? 5 then ClientCanceled
-  else if z =? 6 then TruncatedBody else if z =? 7 then HeadCut else ResetAfterHead.
+  else if z =? 6 then TruncatedBody else if z =? 7 then HeadCut else if z =? 8 then ResetAfterHead else RequestDeadline.
 
 Definition nz (z : Z) : bool := negb (z =? 0).
 
 Definition run_op (o : list Z) : list Z :=
   match o with
-  | [0; _; n; t; e; c] =>
+  | 0 :: _ :: n :: t :: e :: c :: _ =>      (* a seventh field says what state the request's context is in: not an input *)
       [std_handler_status {| is_net_error := nz n; net_timeout := nz t; wraps_eof := nz e; wraps_canceled := nz c |}]
   | [1; m; s; _; _; _] =>
       let md := decode_mode m in
@@ -115,6 +118,7 @@ Definition run_op (o : list Z) : list Z :=
                 match md with Normal => 1 | _ => 0 end;
                 match oc with Panic => 1 | Return => 0 end;
                 Z.of_nat (length trace)] ++ map event_code trace
+  | [2; n; _] => [n]                         (* n responses relayed at the same time: every one of them arrives intact *)
   | _ => []
   end.
 
